@@ -1,7 +1,661 @@
 /-
-Helper lemmas for C20 about `Model/Lint/Indent.lean`.
+Helper lemmas for C20 about `Model/Lint/Indent.lean`: the assoc-list file system, whitespace
+stripping, the regular-expression matchers under stripping, line-number bounds of the recorded fixes.
 -/
 import SymbolVerif.Model.Lint.Indent
 namespace SymbolVerif.Lint.Indent
+
+/-! ### the file system -/
+
+theorem FS.get_remove_same (fs : FS) (p : Str) : (fs.remove p).get p = none := by
+  induction fs with
+  | nil => rfl
+  | cons e fs ih =>
+    obtain ⟨q, c⟩ := e
+    simp only [FS.remove, FS.get] at *
+    by_cases h : q = p
+    · simp [h, ih]
+    · have hb : (p == q) = false := by simpa using fun h' => h h'.symm
+      simp [h, List.lookup_cons, hb, ih]
+
+theorem FS.get_remove_other (fs : FS) {p q : Str} (h : q ≠ p) : (fs.remove p).get q = fs.get q := by
+  induction fs with
+  | nil => rfl
+  | cons e fs ih =>
+    obtain ⟨r, c⟩ := e
+    simp only [FS.remove, FS.get] at *
+    by_cases hr : r = p
+    · have hb : (q == p) = false := by simpa using h
+      simp [hr, List.lookup_cons, ih, hb]
+    · by_cases hq : q = r
+      · simp [hr, hq]
+      · have hb : (q == r) = false := by simpa using hq
+        simp [hr, List.lookup_cons, hb, ih]
+
+theorem FS.get_put_same (fs : FS) (p c : Str) : (fs.put p c).get p = some c := by
+  simp [FS.put, FS.get, List.lookup_cons]
+
+theorem FS.get_put_other (fs : FS) {p q : Str} (c : Str) (h : q ≠ p) : (fs.put p c).get q = fs.get q := by
+  have hb : (q == p) = false := by simpa using h
+  simp only [FS.put, FS.get, List.lookup_cons, hb]
+  exact FS.get_remove_other fs h
+
+theorem tmpOf_ne (p : Str) : tmpOf p ≠ p := by
+  intro h
+  have := congrArg List.length h
+  simp [tmpOf] at this
+
+/-! ### stripping -/
+
+def rstrip (s : Str) : Str := (s.reverse.dropWhile isSpace).reverse
+
+theorem strip_eq (s : Str) : strip s = rstrip (dropSpaces s) := rfl
+
+theorem dropWhile_cons_append {p : Char → Bool} {s r : Str} {c : Char} (t : Str)
+    (h : s.dropWhile p = c :: r) : (s ++ t).dropWhile p = c :: (r ++ t) := by
+  rw [List.dropWhile_append, h]; simp
+
+theorem dropWhile_head_not {p : Char → Bool} {s r : Str} {c : Char} (h : s.dropWhile p = c :: r) :
+    p c = false := by
+  have := List.head?_dropWhile_not p s
+  rw [h] at this
+  simpa using this
+
+theorem dropWhile_of_head_not {p : Char → Bool} {r : Str} {c : Char} (h : p c = false) :
+    (c :: r).dropWhile p = c :: r := by
+  simp [List.dropWhile_cons, h]
+
+theorem mem_takeWhile_holds {p : Char → Bool} : ∀ {s : Str} {c : Char}, c ∈ s.takeWhile p → p c = true
+  | [], _, h => by simp at h
+  | d :: t, c, h => by
+    rw [List.takeWhile_cons] at h
+    split at h
+    · next hd =>
+      rcases List.mem_cons.mp h with rfl | h'
+      · exact hd
+      · exact mem_takeWhile_holds h'
+    · simp at h
+
+theorem all_of_dropWhile_nil {p : Char → Bool} : ∀ {s : Str}, s.dropWhile p = [] → ∀ c ∈ s, p c = true
+  | [], _, c, hc => by simp at hc
+  | d :: t, h, c, hc => by
+    rw [List.dropWhile_cons] at h
+    split at h
+    · next hd =>
+      rcases List.mem_cons.mp hc with rfl | h'
+      · exact hd
+      · exact all_of_dropWhile_nil h c h'
+    · simp at h
+
+theorem rstrip_decomp (s : Str) : ∃ ws, s = rstrip s ++ ws ∧ ∀ c ∈ ws, isSpace c = true := by
+  refine ⟨(s.reverse.takeWhile isSpace).reverse, ?_, ?_⟩
+  · have h := List.takeWhile_append_dropWhile (p := isSpace) (l := s.reverse)
+    have h2 := congrArg List.reverse h
+    simp only [List.reverse_append, List.reverse_reverse] at h2
+    exact h2.symm
+  · intro c hc
+    have hc' : c ∈ s.reverse.takeWhile isSpace := by simpa using hc
+    exact mem_takeWhile_holds hc'
+
+theorem rstrip_of_last {s : Str} {c : Char} (h : s.getLast? = some c) (hc : isSpace c = false) :
+    rstrip s = s := by
+  unfold rstrip
+  have hh : s.reverse.head? = some c := by simpa using h
+  cases hr : s.reverse with
+  | nil => simp [hr] at hh
+  | cons d t =>
+    rw [hr] at hh
+    have : d = c := by simpa using hh
+    subst this
+    rw [dropWhile_of_head_not hc, ← hr, List.reverse_reverse]
+
+/-- a stripped line does not start with whitespace -/
+theorem strip_head_not_space (s : Str) : startsWithSpace (strip s) = false := by
+  rw [strip_eq]
+  obtain ⟨ws, hd, _⟩ := rstrip_decomp (dropSpaces s)
+  cases hr : rstrip (dropSpaces s) with
+  | nil => rfl
+  | cons c r =>
+    rw [hr] at hd
+    exact dropWhile_head_not (p := isSpace) (s := s) (by simpa [dropSpaces] using hd)
+
+theorem strip_of_clean {s : Str} (h1 : startsWithSpace s = false) (h2 : ∀ c, s.getLast? = some c → isSpace c = false) :
+    strip s = s := by
+  cases s with
+  | nil => rfl
+  | cons c r =>
+    have hc : isSpace c = false := by simpa [startsWithSpace] using h1
+    have hd : dropSpaces (c :: r) = c :: r := dropWhile_of_head_not hc
+    rw [strip_eq, hd]
+    cases hl : (c :: r).getLast? with
+    | none => simp at hl
+    | some d => exact rstrip_of_last hl (h2 d hl)
+
+theorem rstrip_last_not_space (s : Str) (c : Char) (h : (rstrip s).getLast? = some c) : isSpace c = false := by
+  unfold rstrip at h
+  rw [List.getLast?_reverse] at h
+  cases hd : s.reverse.dropWhile isSpace with
+  | nil => simp [hd] at h
+  | cons d t =>
+    rw [hd] at h
+    have : d = c := by simpa using h
+    subst this
+    exact dropWhile_head_not hd
+
+theorem strip_idem (s : Str) : strip (strip s) = strip s :=
+  strip_of_clean (strip_head_not_space s) (fun c h => by rw [strip_eq] at h; exact rstrip_last_not_space _ c h)
+
+/-- a final backslash survives stripping -/
+theorem endsBackslash_strip {s : Str} (h : endsBackslash s = true) : endsBackslash (strip s) = true := by
+  have hl : s.getLast? = some '\\' := by simpa [endsBackslash] using h
+  have hns : isSpace '\\' = false := by decide
+  -- dropSpaces keeps a non-empty suffix, hence the last character
+  have hsuf : dropSpaces s <:+ s := List.dropWhile_suffix _
+  obtain ⟨pre, hpre⟩ := hsuf
+  have hne : dropSpaces s ≠ [] := by
+    intro he
+    have hall : ∀ c ∈ s, isSpace c = true := all_of_dropWhile_nil he
+    have hm : '\\' ∈ s := List.mem_of_getLast? hl
+    have := hall _ hm
+    rw [hns] at this; cases this
+  have hl2 : (dropSpaces s).getLast? = some '\\' := by
+    have := hl
+    rw [← hpre, List.getLast?_append] at this
+    cases hd : (dropSpaces s).getLast? with
+    | none => exact absurd (List.getLast?_eq_none_iff.mp hd) hne
+    | some d => rw [hd] at this; simpa using this
+  rw [strip_eq, rstrip_of_last hl2 hns]
+  simpa [endsBackslash] using hl2
+
+/-! ### the matchers under appending and stripping -/
+
+theorem dropSpaces_idem (s : Str) : dropSpaces (dropSpaces s) = dropSpaces s := by
+  unfold dropSpaces
+  cases h : s.dropWhile isSpace with
+  | nil => rfl
+  | cons c r => exact dropWhile_of_head_not (dropWhile_head_not h)
+
+theorem matchInclude_dropSpaces (s : Str) : matchInclude (dropSpaces s) = matchInclude s := by
+  unfold matchInclude
+  rw [dropSpaces_idem]
+
+theorem matchIncludeBody_append (o : Char) (s t : Str) (h : (matchIncludeBody o s).isSome = true) :
+    (matchIncludeBody o (s ++ t)).isSome = true := by
+  unfold matchIncludeBody at h ⊢
+  cases h1 : s.dropWhile (fun c => !isCloser c) with
+  | nil => simp [h1] at h
+  | cons c r => rw [dropWhile_cons_append t h1]; rfl
+
+theorem matchIncludeArg_append (s t : Str) (h : (matchIncludeArg s).isSome = true) :
+    (matchIncludeArg (s ++ t)).isSome = true := by
+  unfold matchIncludeArg at h ⊢
+  cases h1 : s.dropWhile (fun c => c == ' ' || c == '\t') with
+  | nil => simp [h1] at h
+  | cons o r =>
+    rw [h1] at h
+    rw [dropWhile_cons_append t h1]
+    simp only at h ⊢
+    by_cases ho : (o == '"' || o == '<') = true
+    · rw [if_pos ho] at h ⊢
+      exact matchIncludeBody_append o r t h
+    · rw [if_neg ho] at h; simp at h
+
+theorem matchIncludeWord_append (s t : Str) (h : (matchIncludeWord s).isSome = true) :
+    (matchIncludeWord (s ++ t)).isSome = true := by
+  unfold matchIncludeWord at h ⊢
+  by_cases hp : "include".toList.isPrefixOf (dropSpaces s) = true
+  · rw [if_pos hp] at h
+    cases h1 : dropSpaces s with
+    | nil => rw [h1] at hp; simp at hp
+    | cons c r =>
+      have h1' : dropSpaces (s ++ t) = c :: r ++ t := dropWhile_cons_append t h1
+      rw [h1] at hp h
+      have hp' : "include".toList.isPrefixOf (c :: r ++ t) = true := by
+        rw [List.isPrefixOf_iff_prefix] at hp ⊢
+        exact hp.trans (List.prefix_append (c :: r) t)
+      have hlen : 7 ≤ (c :: r).length := by
+        have := (List.isPrefixOf_iff_prefix.mp hp).length_le
+        simpa using this
+      rw [h1', if_pos hp', List.drop_append_of_le_length hlen]
+      exact matchIncludeArg_append _ t h
+  · rw [if_neg hp] at h; simp at h
+
+/-- a successful `PATTERN_INCLUDE.match` stays successful when the line is extended -/
+theorem matchInclude_append (s t : Str) (h : (matchInclude s).isSome = true) :
+    (matchInclude (s ++ t)).isSome = true := by
+  unfold matchInclude at h ⊢
+  cases h1 : dropSpaces s with
+  | nil => simp [h1] at h
+  | cons c r =>
+    rw [h1] at h
+    rw [show dropSpaces (s ++ t) = c :: (r ++ t) from dropWhile_cons_append t h1]
+    by_cases hc : c = '#'
+    · subst hc
+      exact matchIncludeWord_append r t h
+    · exfalso
+      revert h
+      split
+      · next heq => cases heq; exact absurd rfl hc
+      · simp
+
+/-- `strip` cannot turn a line that is not an include line into one -/
+theorem matchInclude_strip_none (s : Str) (h : matchInclude s = none) : matchInclude (strip s) = none := by
+  cases hs : matchInclude (strip s) with
+  | none => rfl
+  | some v =>
+    exfalso
+    obtain ⟨ws, hd, _⟩ := rstrip_decomp (dropSpaces s)
+    have h1 := matchInclude_append (strip s) ws (by simp [hs])
+    rw [strip_eq, ← hd, matchInclude_dropSpaces, h] at h1
+    simp at h1
+
+/-- `strip` keeps a directive line a directive line -/
+theorem matchDirective_strip (s : Str) (h : (matchDirective s).isSome = true) :
+    (matchDirective (strip s)).isSome = true := by
+  unfold matchDirective at h
+  cases h1 : dropSpaces s with
+  | nil => simp [h1] at h
+  | cons c r =>
+    rw [h1] at h
+    have hc : c = '#' := by
+      by_cases hc : c = '#'
+      · exact hc
+      · exfalso; revert h; split
+        · next heq => cases heq; exact absurd rfl hc
+        · simp
+    subst hc
+    obtain ⟨ws, hd, hws⟩ := rstrip_decomp (dropSpaces s)
+    have hns : isSpace '#' = false := by decide
+    cases hr : rstrip (dropSpaces s) with
+    | nil =>
+      rw [hr, h1] at hd
+      have : '#' ∈ ws := by rw [← List.nil_append ws, ← hd]; simp
+      have := hws _ this
+      rw [hns] at this; cases this
+    | cons d r' =>
+      rw [hr, h1] at hd
+      have hdd : d = '#' := by simp at hd; exact hd.1.symm
+      subst hdd
+      have : dropSpaces (strip s) = '#' :: r' := by
+        rw [strip_eq, hr]; exact dropWhile_of_head_not hns
+      unfold matchDirective
+      rw [this]
+      rfl
+
+/-! ### the recorded fixes -/
+
+theorem parseGo_true_inv {known : List Str} {n : Nat} {l : Str} {ls : List Str} {fs : List Fix}
+    (h : parseGo known true n (l :: ls) = some fs) :
+    ∃ fs1, parseGo known (endsBackslash l) (n + 1) ls = some fs1 ∧ fs = ⟨.continuation, n, l⟩ :: fs1 := by
+  simp only [parseGo, Option.map_eq_some_iff] at h
+  obtain ⟨fs1, h1, h2⟩ := h
+  exact ⟨fs1, h1, h2.symm⟩
+
+/-- what one step of the parse can do with a line -/
+theorem parseGo_cons_inv {known : List Str} {m : Bool} {n : Nat} {l : Str} {ls : List Str} {fs : List Fix}
+    (h : parseGo known m n (l :: ls) = some fs) :
+    ∃ m' fs1, parseGo known m' (n + 1) ls = some fs1 ∧
+      (fs = fs1 ∨ ∃ k, fs = ⟨k, n, l⟩ :: fs1 ∧
+        (k = .ppline → m = false ∧ ((matchInclude l).isSome = true ∨ (matchDirective l).isSome = true))) ∧
+      ((m = true ∨ (matchInclude l = none ∧ (matchDirective l).isSome = true)) → m' = endsBackslash l) := by
+  cases m with
+  | true =>
+    obtain ⟨fs1, h1, h2⟩ := parseGo_true_inv h
+    exact ⟨_, fs1, h1, Or.inr ⟨_, h2, by intro hk; cases hk⟩, fun _ => rfl⟩
+  | false =>
+    simp only [parseGo] at h
+    split at h
+    · next v hv =>
+      simp only [Option.map_eq_some_iff] at h
+      obtain ⟨fs1, h1, h2⟩ := h
+      refine ⟨false, fs1, h1, Or.inr ⟨_, h2.symm, fun _ => ⟨rfl, Or.inl (by simp [hv])⟩⟩, ?_⟩
+      rintro (h' | ⟨h', _⟩)
+      · cases h'
+      · rw [hv] at h'; cases h'
+    · next hv =>
+      split at h
+      · next w hw =>
+        split at h
+        · split at h
+          · exact ⟨_, fs, h, Or.inl rfl, fun _ => rfl⟩
+          · simp only [Option.map_eq_some_iff] at h
+            obtain ⟨fs1, h1, h2⟩ := h
+            exact ⟨_, fs1, h1, Or.inr ⟨_, h2.symm, fun _ => ⟨rfl, Or.inr (by simp [hw])⟩⟩, fun _ => rfl⟩
+        · cases h
+      · next hw =>
+        refine ⟨false, fs, h, Or.inl rfl, ?_⟩
+        rintro (h' | ⟨_, h'⟩)
+        · cases h'
+        · rw [hw] at h'; simp at h'
+
+/-- line numbers recorded from line `n` on are at least `n` -/
+theorem parseGo_lineno_ge {known : List Str} : ∀ {ls : List Str} {m : Bool} {n : Nat} {fs : List Fix},
+    parseGo known m n ls = some fs → ∀ f ∈ fs, n ≤ f.lineno
+  | [], _, _, fs, h, f, hf => by
+    simp only [parseGo] at h
+    cases h
+    simp at hf
+  | l :: ls, m, n, fs, h, f, hf => by
+    obtain ⟨m', fs1, h1, h2, _⟩ := parseGo_cons_inv h
+    have ih := parseGo_lineno_ge h1
+    rcases h2 with rfl | ⟨k, rfl, _⟩
+    · exact Nat.le_of_succ_le (ih f hf)
+    · rcases List.mem_cons.mp hf with rfl | hf'
+      · exact Nat.le_refl _
+      · exact Nat.le_of_succ_le (ih f hf')
+
+/-- a line before every recorded line number is copied -/
+theorem fixGo_skip (fs : List Fix) (fc : Bool) (n : Nat) (l : Str) (ls : List Str)
+    (h : ∀ f ∈ fs, n + 1 ≤ f.lineno) : fixGo fs fc n (l :: ls) = l :: fixGo fs fc (n + 1) ls := by
+  cases fs with
+  | nil => cases ls <;> simp [fixGo]
+  | cons f fs =>
+    have : n ≠ f.lineno := by
+      have := h f List.mem_cons_self
+      omega
+    simp [fixGo, this]
+
+/-! ### trailing backslashes under `fix_tabs` -/
+
+theorem getLast?_removeTabs {c : Char} (hc : c ≠ '\t') : ∀ (k : Nat) (s : Str),
+    s.getLast? = some c → (removeTabs k s).getLast? = some c
+  | 0, s, h => by simpa [removeTabs] using h
+  | k + 1, [], h => by simp at h
+  | k + 1, d :: t, h => by
+    simp only [removeTabs]
+    cases t with
+    | nil =>
+      have hd : d = c := by simpa using h
+      subst hd
+      have : (d == '\t') = false := by simpa using hc
+      simp [this, removeTabs]
+    | cons e t' =>
+      have ht : (e :: t').getLast? = some c := by simpa using h
+      split
+      · exact getLast?_removeTabs hc k _ ht
+      · have ih := getLast?_removeTabs hc (k + 1) (e :: t') ht
+        cases hr : removeTabs (k + 1) (e :: t') with
+        | nil => rw [hr] at ih; simp at ih
+        | cons x y => rw [hr] at ih; simpa using ih
+
+theorem endsBackslash_fixTabs {l : Str} (k : Nat) (h : endsBackslash l = true) :
+    endsBackslash (fixTabs l k) = true := by
+  have hl : l.getLast? = some '\\' := by simpa [endsBackslash] using h
+  unfold fixTabs
+  split
+  · exact h
+  · split
+    · have := getLast?_removeTabs (c := '\\') (by decide) (k - 1) l hl
+      simpa [endsBackslash] using this
+    · cases l with
+      | nil => simp at hl
+      | cons c r => simpa [endsBackslash] using hl
+
+/-! ### the fixed file: every recorded directive line is a stripped line -/
+
+/-- every recorded directive line is the result of `strip` -/
+def Stripped (fs : List Fix) : Prop := ∀ f ∈ fs, f.kind = .ppline → ∃ l0, f.line = strip l0
+
+theorem pragmaOnce_strip : pragmaOnce = strip pragmaOnce := by decide
+theorem pragmaOnce_ends : endsBackslash pragmaOnce = false := by decide
+
+theorem stripped_of_tail {f : Fix} {fs : List Fix} (hf : f.kind = .ppline → ∃ l0, f.line = strip l0)
+    (h : Stripped fs) : Stripped (f :: fs) := by
+  intro g hg
+  rcases List.mem_cons.mp hg with rfl | hg'
+  · exact hf
+  · exact h g hg'
+
+/-- Re-parsing the fixed lines: the parse of the fixed file is "at least as multi-line" as the parse of
+    the original (`m → m'`), and whatever it records as a directive line is a stripped line. -/
+theorem parse_fix_stripped (known : List Str) : ∀ (ls : List Str) (m m' : Bool) (n : Nat)
+    (fs : List Fix) (fc : Bool) (fs' : List Fix), (m = true → m' = true) →
+    parseGo known m n ls = some fs → parseGo known m' n (fixGo fs fc n ls) = some fs' → Stripped fs'
+  | [], m, m', n, fs, fc, fs', _, _, h2 => by
+    have : fixGo fs fc n [] = [] := by cases fs <;> rfl
+    rw [this] at h2
+    simp only [parseGo] at h2
+    cases h2
+    intro f hf; simp at hf
+  | l :: ls, true, m', n, fs, fc, fs', hm, h1, h2 => by
+    have hm' : m' = true := hm rfl
+    subst hm'
+    obtain ⟨fs1, h1a, rfl⟩ := parseGo_true_inv h1
+    have hfix : fixGo (⟨.continuation, n, l⟩ :: fs1) fc n (l :: ls)
+        = fixTabs l (if fc then leadingTabs l else 0) :: fixGo fs1 false (n + 1) ls := by
+      simp [fixGo]
+    rw [hfix] at h2
+    obtain ⟨fs1', h2a, rfl⟩ := parseGo_true_inv h2
+    have ih := parse_fix_stripped known ls _ _ (n + 1) fs1 false fs1' (endsBackslash_fixTabs _) h1a h2a
+    exact stripped_of_tail (fun hk => by cases hk) ih
+  | l :: ls, false, m', n, fs, fc, fs', _, h1, h2 => by
+    simp only [parseGo] at h1
+    split at h1
+    · -- an include line: recorded, stripped
+      next v hv =>
+      simp only [Option.map_eq_some_iff] at h1
+      obtain ⟨fs1, h1a, rfl⟩ := h1
+      have hfix : fixGo (⟨.ppline, n, l⟩ :: fs1) fc n (l :: ls) = strip l :: fixGo fs1 true (n + 1) ls := by
+        simp [fixGo]
+      rw [hfix] at h2
+      obtain ⟨m'', fs1', h2a, h2b, _⟩ := parseGo_cons_inv h2
+      have ih := parse_fix_stripped known ls false m'' (n + 1) fs1 true fs1' (fun h => by cases h) h1a h2a
+      rcases h2b with rfl | ⟨k, rfl, _⟩
+      · exact ih
+      · exact stripped_of_tail (fun _ => ⟨l, rfl⟩) ih
+    · next hv =>
+      split at h1
+      · next w hw =>
+        split at h1
+        · split at h1
+          · -- `#pragma once`: not recorded, copied
+            next hpo =>
+            subst hpo
+            have hge := parseGo_lineno_ge h1
+            rw [fixGo_skip fs fc n _ ls hge] at h2
+            obtain ⟨m'', fs1', h2a, h2b, _⟩ := parseGo_cons_inv h2
+            have ih := parse_fix_stripped known ls (endsBackslash pragmaOnce) m'' (n + 1) fs fc fs1'
+              (fun h => by rw [pragmaOnce_ends] at h; cases h) h1 h2a
+            rcases h2b with rfl | ⟨k, rfl, _⟩
+            · exact ih
+            · exact stripped_of_tail (fun _ => ⟨pragmaOnce, pragmaOnce_strip⟩) ih
+          · -- a directive line: recorded, stripped; a multi-line directive stays multi-line
+            simp only [Option.map_eq_some_iff] at h1
+            obtain ⟨fs1, h1a, rfl⟩ := h1
+            have hfix : fixGo (⟨.ppline, n, l⟩ :: fs1) fc n (l :: ls) = strip l :: fixGo fs1 true (n + 1) ls := by
+              simp [fixGo]
+            rw [hfix] at h2
+            obtain ⟨m'', fs1', h2a, h2b, h2c⟩ := parseGo_cons_inv h2
+            have hm'' : endsBackslash l = true → m'' = true := by
+              intro he
+              have : m'' = endsBackslash (strip l) := by
+                apply h2c
+                cases m' with
+                | true => exact Or.inl rfl
+                | false =>
+                  exact Or.inr ⟨matchInclude_strip_none l hv, matchDirective_strip l (by simp [hw])⟩
+              rw [this]; exact endsBackslash_strip he
+            have ih := parse_fix_stripped known ls (endsBackslash l) m'' (n + 1) fs1 true fs1' hm'' h1a h2a
+            rcases h2b with rfl | ⟨k, rfl, _⟩
+            · exact ih
+            · exact stripped_of_tail (fun _ => ⟨l, rfl⟩) ih
+        · cases h1
+      · -- neither an include nor a directive: not recorded, copied
+        next hw =>
+        have hge := parseGo_lineno_ge h1
+        rw [fixGo_skip fs fc n l ls hge] at h2
+        obtain ⟨m'', fs1', h2a, h2b, _⟩ := parseGo_cons_inv h2
+        have ih := parse_fix_stripped known ls false m'' (n + 1) fs fc fs1' (fun h => by cases h) h1 h2a
+        rcases h2b with rfl | ⟨k, rfl, hk⟩
+        · exact ih
+        · refine stripped_of_tail (fun hkp => ?_) ih
+          obtain ⟨_, hor⟩ := hk hkp
+          rcases hor with h' | h'
+          · rw [hv] at h'; simp at h'
+          · rw [hw] at h'; simp at h'
+
+/-- no report about a list of fixes whose directive lines are all stripped -/
+theorem reportGo_of_stripped : ∀ (fs : List Fix), Stripped fs → reportGo false fs = []
+  | [], _ => rfl
+  | f :: fs, h => by
+    have ih := reportGo_of_stripped fs (fun g hg => h g (List.mem_cons_of_mem _ hg))
+    unfold reportGo
+    cases hk : f.kind with
+    | ppline =>
+      obtain ⟨l0, hl⟩ := h f List.mem_cons_self hk
+      have : startsWithSpace f.line = false := by rw [hl]; exact strip_head_not_space l0
+      simp [this, ih]
+    | continuation => simp [ih]
+
+/-! ### which lines the fixer can change -/
+
+theorem fixGo_length : ∀ (ls : List Str) (fs : List Fix) (fc : Bool) (n : Nat),
+    (fixGo fs fc n ls).length = ls.length
+  | [], fs, fc, n => by cases fs <;> rfl
+  | l :: ls, [], fc, n => by simp [fixGo]
+  | l :: ls, f :: fs, fc, n => by
+    simp only [fixGo]
+    split
+    · split <;> simp [fixGo_length ls]
+    · simp [fixGo_length ls]
+
+theorem fixGo_untouched : ∀ (ls : List Str) (fs : List Fix) (fc : Bool) (n i : Nat),
+    (∀ f ∈ fs, f.lineno ≠ n + i) → (fixGo fs fc n ls)[i]? = ls[i]?
+  | [], fs, fc, n, i, _ => by cases fs <;> rfl
+  | l :: ls, [], fc, n, i, _ => by simp [fixGo]
+  | l :: ls, f :: fs, fc, n, i, h => by
+    simp only [fixGo]
+    split
+    · next hn =>
+      cases i with
+      | zero => exact absurd hn.symm (by simpa using h f List.mem_cons_self)
+      | succ j =>
+        have h' : ∀ g ∈ fs, g.lineno ≠ n + 1 + j := fun g hg => by
+          have := h g (List.mem_cons_of_mem _ hg); omega
+        split <;> simp [fixGo_untouched ls fs _ (n + 1) j h']
+    · cases i with
+      | zero => simp
+      | succ j =>
+        have h' : ∀ g ∈ f :: fs, g.lineno ≠ n + 1 + j := fun g hg => by
+          have := h g hg; omega
+        simp [fixGo_untouched ls (f :: fs) fc (n + 1) j h']
+
+/-- a second inversion of one parse step, for the continuation bookkeeping -/
+theorem parseGo_cons_inv' {known : List Str} {m : Bool} {n : Nat} {l : Str} {ls : List Str} {fs : List Fix}
+    (h : parseGo known m n (l :: ls) = some fs) :
+    ∃ m' fs1, parseGo known m' (n + 1) ls = some fs1 ∧
+      (fs = fs1 ∨ ∃ k, fs = ⟨k, n, l⟩ :: fs1 ∧ (k = .continuation → m = true) ∧
+        (k = .ppline → (matchInclude l).isSome = true ∨ (matchDirective l).isSome = true)) ∧
+      (m' = true → endsBackslash l = true) := by
+  cases m with
+  | true =>
+    obtain ⟨fs1, h1, h2⟩ := parseGo_true_inv h
+    exact ⟨_, fs1, h1, Or.inr ⟨_, h2, fun _ => rfl, by intro hk; cases hk⟩, fun h => h⟩
+  | false =>
+    simp only [parseGo] at h
+    split at h
+    · next v hv =>
+      simp only [Option.map_eq_some_iff] at h
+      obtain ⟨fs1, h1, h2⟩ := h
+      exact ⟨false, fs1, h1, Or.inr ⟨_, h2.symm, (by intro hk; cases hk), fun _ => Or.inl (by simp [hv])⟩,
+        by intro h'; cases h'⟩
+    · next hv =>
+      split at h
+      · next w hw =>
+        split at h
+        · split at h
+          · exact ⟨_, fs, h, Or.inl rfl, fun h => h⟩
+          · simp only [Option.map_eq_some_iff] at h
+            obtain ⟨fs1, h1, h2⟩ := h
+            exact ⟨_, fs1, h1, Or.inr ⟨_, h2.symm, (by intro hk; cases hk), fun _ => Or.inr (by simp [hw])⟩, fun h => h⟩
+        · cases h
+      · exact ⟨false, fs, h, Or.inl rfl, by intro h'; cases h'⟩
+
+/-- what kind of line a recorded fix points at -/
+def RecordedAt (ls : List Str) (m : Bool) (n : Nat) (f : Fix) : Prop :=
+  ∃ i, f.lineno = n + i ∧ ls[i]? = some f.line ∧
+    (f.kind = .ppline → (matchInclude f.line).isSome = true ∨ (matchDirective f.line).isSome = true) ∧
+    (f.kind = .continuation →
+      (i = 0 ∧ m = true) ∨ ∃ j prev, i = j + 1 ∧ ls[j]? = some prev ∧ endsBackslash prev = true)
+
+theorem parseGo_records {known : List Str} : ∀ {ls : List Str} {m : Bool} {n : Nat} {fs : List Fix},
+    parseGo known m n ls = some fs → ∀ f ∈ fs, RecordedAt ls m n f
+  | [], _, _, fs, h, f, hf => by
+    simp only [parseGo] at h
+    cases h
+    simp at hf
+  | l :: ls, m, n, fs, h, f, hf => by
+    obtain ⟨m', fs1, h1, h2, h3⟩ := parseGo_cons_inv' h
+    have ih := parseGo_records h1
+    have tail : ∀ g ∈ fs1, RecordedAt (l :: ls) m n g := by
+      intro g hg
+      obtain ⟨i, hi1, hi2, hi3, hi4⟩ := ih g hg
+      refine ⟨i + 1, by omega, by simpa using hi2, hi3, fun hk => ?_⟩
+      rcases hi4 hk with ⟨hi0, hm'⟩ | ⟨j, prev, hj, hp, he⟩
+      · exact Or.inr ⟨0, l, by omega, by simp, h3 hm'⟩
+      · exact Or.inr ⟨j + 1, prev, by omega, by simpa using hp, he⟩
+    rcases h2 with rfl | ⟨k, rfl, hk1, hk2⟩
+    · exact tail f hf
+    · rcases List.mem_cons.mp hf with rfl | hf'
+      · exact ⟨0, rfl, by simp, hk2, fun hk => Or.inl ⟨rfl, hk1 hk⟩⟩
+      · exact tail f hf'
+
+/-! ### a settled file is a fixed point of the fixer -/
+
+/-- every recorded directive line is stripped, every continuation line directly follows its directive
+    line and carries exactly one tab -/
+def settledGo : Bool → List Fix → Prop
+  | _, [] => True
+  | fc, f :: fs =>
+    match f.kind with
+    | .ppline => strip f.line = f.line ∧ settledGo true fs
+    | .continuation => fc = true ∧ leadingTabs f.line = 1 ∧ settledGo false fs
+
+/-- the continuation half of `settledGo` -/
+def contSettled : Bool → List Fix → Prop
+  | _, [] => True
+  | fc, f :: fs =>
+    match f.kind with
+    | .ppline => contSettled true fs
+    | .continuation => fc = true ∧ leadingTabs f.line = 1 ∧ contSettled false fs
+
+theorem settled_of_stripped : ∀ (fs : List Fix) (fc : Bool), Stripped fs → contSettled fc fs → settledGo fc fs
+  | [], _, _, _ => trivial
+  | f :: fs, fc, hs, hc => by
+    have hs' : Stripped fs := fun g hg => hs g (List.mem_cons_of_mem _ hg)
+    unfold settledGo
+    unfold contSettled at hc
+    cases hk : f.kind with
+    | ppline =>
+      rw [hk] at hc
+      obtain ⟨l0, hl⟩ := hs f List.mem_cons_self hk
+      exact ⟨by rw [hl]; exact strip_idem l0, settled_of_stripped fs true hs' hc⟩
+    | continuation =>
+      rw [hk] at hc
+      exact ⟨hc.1, hc.2.1, settled_of_stripped fs false hs' hc.2.2⟩
+
+theorem fixGo_of_settled {known : List Str} : ∀ (ls : List Str) (m : Bool) (n : Nat) (fs : List Fix) (fc : Bool),
+    parseGo known m n ls = some fs → settledGo fc fs → fixGo fs fc n ls = ls
+  | [], _, _, fs, _, _, _ => by cases fs <;> rfl
+  | l :: ls, m, n, fs, fc, h, hs => by
+    obtain ⟨m', fs1, h1, h2, _⟩ := parseGo_cons_inv h
+    rcases h2 with rfl | ⟨k, rfl, _⟩
+    · rw [fixGo_skip fs fc n l ls (parseGo_lineno_ge h1), fixGo_of_settled ls m' (n + 1) fs fc h1 hs]
+    · unfold settledGo at hs
+      cases k with
+      | ppline =>
+        simp only at hs
+        have : fixGo (⟨.ppline, n, l⟩ :: fs1) fc n (l :: ls) = strip l :: fixGo fs1 true (n + 1) ls := by
+          simp [fixGo]
+        rw [this, hs.1, fixGo_of_settled ls m' (n + 1) fs1 true h1 hs.2]
+      | continuation =>
+        simp only at hs
+        obtain ⟨hfc, htabs, hrest⟩ := hs
+        subst hfc
+        have : fixGo (⟨.continuation, n, l⟩ :: fs1) true n (l :: ls)
+            = fixTabs l (leadingTabs l) :: fixGo fs1 false (n + 1) ls := by
+          simp [fixGo]
+        rw [this, htabs, fixGo_of_settled ls m' (n + 1) fs1 false h1 hrest]
+        simp [fixTabs]
 
 end SymbolVerif.Lint.Indent
